@@ -173,11 +173,23 @@ func faninAdj(n int) [][]int {
 }
 
 func runSpecs(c *h.Check, specs []specCase, classes map[string]bool) (cases []*h.Case, results []*h.Result) {
+	withLib := 0
 	for _, sc := range specs {
 		prog, _ := sc.spec.Build()
 		cs := caseFromProgram(sc.id, prog, true, classes)
 		if c.NoteProgram(cs.Files) {
 			cases = append(cases, cs)
+		}
+		// every seventh program that has a package besides the root: the root package twice in one invocation,
+		// both copies using the same objects of the other package; nothing may differ between the two
+		if _, ok := cs.Files["lib/defs.go"]; ok {
+			withLib++
+			if withLib%7 == 0 {
+				tw := withTwinRoot(caseFromProgram(sc.id, prog, true, classes))
+				if c.NoteProgram(tw.Files) {
+					cases = append(cases, tw)
+				}
+			}
 		}
 	}
 	results = c.JudgeAll(cases)
